@@ -604,10 +604,9 @@ impl Compactor {
 
             // Merge chunks
             match self.merge_chunks(&group, Level::L0).await {
-                Ok(target_path) => {
-                    self.metadata
-                        .complete_compaction(&group, &target_path)
-                        .await?;
+                Ok(target) => {
+                    let target_path = target.path.clone();
+                    self.metadata.swap_compacted_chunk(&group, &target).await?;
                     self.metadata
                         .update_compaction_status(&job.id, CompactionStatus::Completed)
                         .await?;
@@ -732,10 +731,9 @@ impl Compactor {
             let level_label = level.to_string();
 
             match self.merge_chunks(&group, Level::L(level)).await {
-                Ok(target_path) => {
-                    self.metadata
-                        .complete_compaction(&group, &target_path)
-                        .await?;
+                Ok(target) => {
+                    let target_path = target.path.clone();
+                    self.metadata.swap_compacted_chunk(&group, &target).await?;
                     self.metadata
                         .update_compaction_status(&job.id, CompactionStatus::Completed)
                         .await?;
@@ -790,8 +788,13 @@ impl Compactor {
         Ok(())
     }
 
-    /// Merge a group of chunks into one
-    async fn merge_chunks(&self, paths: &[String], level: Level) -> Result<String> {
+    /// Merge a group of chunks into one. Returns the catalog entry of the uploaded (not yet
+    /// registered) merged chunk.
+    async fn merge_chunks(
+        &self,
+        paths: &[String],
+        level: Level,
+    ) -> Result<crate::ingester::ChunkMetadata> {
         // Read and merge chunks
         let merged_batch = self.merger.merge(paths).await?;
 
@@ -800,6 +803,10 @@ impl Compactor {
 
         // Write merged Parquet
         let parquet_bytes = self.parquet_writer.write_batch(&sorted)?;
+        let size_bytes = parquet_bytes.len() as u64;
+
+        // The batch is sorted by timestamp: first and last row give the time range
+        let (min_timestamp, max_timestamp) = Self::timestamp_range(&sorted)?;
 
         // Generate target path
         let target_path = self.generate_compacted_path(level);
@@ -809,7 +816,34 @@ impl Compactor {
             .put(&target_path.clone().into(), parquet_bytes.into())
             .await?;
 
-        Ok(target_path)
+        Ok(crate::ingester::ChunkMetadata {
+            path: target_path,
+            min_timestamp,
+            max_timestamp,
+            row_count: sorted.num_rows() as u64,
+            size_bytes,
+        })
+    }
+
+    /// Minimum and maximum of the `timestamp` column
+    fn timestamp_range(batch: &arrow_array::RecordBatch) -> Result<(i64, i64)> {
+        use arrow_array::cast::AsArray;
+        use arrow_array::types::{Int64Type, TimestampNanosecondType};
+
+        let col = batch
+            .column_by_name("timestamp")
+            .ok_or_else(|| Error::InvalidSchema("Missing timestamp column".into()))?;
+        let range = if let Some(ts) = col.as_primitive_opt::<TimestampNanosecondType>() {
+            (arrow::compute::min(ts), arrow::compute::max(ts))
+        } else if let Some(ts) = col.as_primitive_opt::<Int64Type>() {
+            (arrow::compute::min(ts), arrow::compute::max(ts))
+        } else {
+            return Err(Error::InvalidSchema(format!(
+                "Timestamp column must be Timestamp(Nanosecond) or Int64, got {:?}",
+                col.data_type()
+            )));
+        };
+        Ok((range.0.unwrap_or(0), range.1.unwrap_or(0)))
     }
 
     /// Garbage collect old chunks with grace period
